@@ -40,7 +40,7 @@ def programs(draw: Any) -> Dict[str, Any]:
         if a is not None and a[0] == "v":
             prod = [x for x in P["body"] if x["out"] == a[1]][0]
             f = P["fns"][prod["fn"]]
-            if not f.get("setup") and f.get("kind") != "tup":
+            if not f.get("setup") and f.get("kind") not in ("tup", "dict"):
                 f["kind"] = "const"
                 f["val"] = draw(st.sampled_from([0, 1, "", "x", None]))
     # the bomb: a site that receives p0 first
